@@ -141,7 +141,7 @@ def to_bool(ctx, v):
             raise Unsupported("truthiness via __len__")
         return True
     if isinstance(v, (Sentinel, Source, UserFn, Closure, ClassVal, GenObj, Builtin, BoundMethod, UserCM,
-                      Partial, ExcVal, ExcClass, AwaitifyWrapped, NativeIter)):
+                      Partial, ExcVal, ExcClass, AwaitifyWrapped, NativeIter, EnvGen)):
         return True
     raise Unsupported(f"truthiness of {v!r}")
 
@@ -512,6 +512,10 @@ class AwaitifyWrapped:
     def __init__(self, fn):
         self.fn = fn
 
+    @property
+    def name(self):
+        return getattr(self.fn, "name", "?")
+
     def __repr__(self):
         return f"awaitify({self.fn!r})"
 
@@ -519,6 +523,11 @@ class AwaitifyWrapped:
 class SrcMethod:
     def __init__(self, src, name):
         self.src, self.name = src, name
+
+
+class EnvGenMethod:
+    def __init__(self, gen, name):
+        self.gen, self.name = gen, name
 
 
 class GenMethod:
@@ -695,7 +704,15 @@ class Interp:
         if isinstance(fn, UserFn):
             return (yield from self.call_user(fn, args, kwargs, site, direct=True))
         if isinstance(fn, AwaitifyWrapped):
-            return (yield from self.call_user(fn.fn, args, kwargs, site, direct=False))
+            if isinstance(fn.fn, UserFn):
+                return (yield from self.call_user(fn.fn, args, kwargs, site, direct=False))
+            # a synchronous callable of known kind (sync context-manager method, library function)
+            try:
+                r = yield from self.call(fn.fn, args, kwargs, site)
+                outcome = ("ret", r)
+            except PyRaise as pr:
+                outcome = ("raise", pr.exc)
+            return UserAwaitable(outcome, self.ctx.evseq, None)
         if isinstance(fn, Builtin):
             from .builtins_model import call_builtin
             return (yield from call_builtin(self, fn.name, list(args), dict(kwargs), site))
@@ -714,6 +731,17 @@ class Interp:
                 return Pending(fn.name, fn.src, args[0] if args else None)
             if fn.name == "__next__":
                 return (yield from self.pull(fn.src))
+        if isinstance(fn, EnvGenMethod):
+            op = {"__anext__": "next", "__next__": "next", "asend": "send", "send": "send", "athrow": "throw", "throw": "throw",
+                  "aclose": "close", "close": "close"}.get(fn.name)
+            if op is None:
+                return fn.gen
+            arg = args[0] if args else None
+            if op == "throw" and len(args) == 3:
+                arg = args[1]
+            if fn.name in ("__anext__", "asend", "athrow", "aclose"):
+                return Pending("envgen", fn.gen, (op, arg))
+            return (yield from self.envgen_op(fn.gen, op, arg, site))
         if isinstance(fn, GenMethod) and isinstance(fn.gen, NativeIter):
             g = fn.gen
             if fn.name in ("__aiter__", "__iter__"):
@@ -747,7 +775,10 @@ class Interp:
             from .builtins_model import dict_method
             return (yield from dict_method(self, fn.d, fn.name, list(args), dict(kwargs)))
         if isinstance(fn, CMMethod):
-            return Pending("cm_" + fn.name, fn.cm, tuple(args))
+            op = "enter" if "enter" in fn.name else "exit"
+            if fn.name.startswith("__a"):
+                return Pending("cm", fn.cm, (op, tuple(args)))
+            return (yield from self.cm_op(fn.cm, op, tuple(args), site))
         if isinstance(fn, ExcClass):
             e = ExcVal(fn.name)
             e.args = tuple(args)
@@ -804,6 +835,8 @@ class Interp:
             raise PyRaise(payload)
         if isinstance(it, GenObj):
             return (yield from it.anext())
+        if isinstance(it, EnvGen):
+            return (yield from self.envgen_op(it, "next", None, site))
         if isinstance(it, NativeIter):
             ok, v = it.next_(self.ctx)
             if ok:
@@ -816,6 +849,29 @@ class Interp:
                 return (yield from self.await_(r, site))
             return r
         raise Unsupported(f"pull from {it!r}")
+
+    def cm_op(self, cm, op, args, site):
+        """enter / exit of a user context manager (or lock): one environment event"""
+        resp = yield Ev("CM", cm, op, args, site=site)
+        self.ctx.evseq += 1
+        kind, payload = resp
+        if kind == "ret":
+            return payload
+        raise PyRaise(payload)
+
+    def envgen_op(self, gen, op, arg, site):
+        """next / send / throw / close on a user generator object: one environment event"""
+        stop = "StopAsyncIteration" if self.side == "impl" else "StopIteration"
+        resp = yield Ev("GenOp", gen, op, arg, site=site)
+        self.ctx.evseq += 1
+        kind, payload = resp
+        if kind == "yield":
+            return payload
+        if kind == "ok":
+            return None
+        if kind == "stop":
+            raise PyRaise(ExcVal(stop, ident=payload, origin="env-stop"))
+        raise PyRaise(payload)
 
     def ctx_repoll(self, src):
         self.ctx.repolls = getattr(self.ctx, "repolls", 0) + 1
@@ -856,6 +912,8 @@ class Interp:
                 return (yield from self.pull(aw.target, site))
             if k == "aclose":
                 return (yield from self.aclose_source(aw.target, site))
+            if k == "envgen":
+                return (yield from self.envgen_op(aw.target, aw.arg[0], aw.arg[1], site))
             if k == "native_aclose":
                 aw.target.kind, aw.target.data, aw.target.idx = "seq", [], 0
                 return None
@@ -876,13 +934,8 @@ class Interp:
                 if kind == "end":
                     raise PyRaise(ExcVal("StopAsyncIteration", ident="end"))
                 raise PyRaise(payload)
-            if k in ("cm___aenter__", "cm___aexit__"):
-                resp = yield Ev("CM", aw.target, k[3:], aw.arg, site=site)
-                self.ctx.evseq += 1
-                kind, payload = resp
-                if kind == "ret":
-                    return payload
-                raise PyRaise(payload)
+            if k == "cm":
+                return (yield from self.cm_op(aw.target, aw.arg[0], aw.arg[1], site))
             raise Unsupported(f"await pending {k}")
         if isinstance(aw, EnvAwaitable):
             if aw.awaited:
@@ -971,6 +1024,10 @@ class Interp:
                     raise PyRaise(ExcVal("AttributeError", ident=("attr", name)))
                 return SrcMethod(o, name)
             raise PyRaise(ExcVal("AttributeError", ident=("attr", name)))
+        if isinstance(o, EnvGen):
+            if name in ("__anext__", "aclose", "asend", "athrow", "__aiter__", "__next__", "__iter__", "close", "throw", "send"):
+                return EnvGenMethod(o, name)
+            raise PyRaise(ExcVal("AttributeError", ident=("attr", name)))
         if isinstance(o, GenObj):
             if name in ("__anext__", "aclose", "asend", "athrow", "__aiter__", "__next__", "__iter__", "close"):
                 return GenMethod(o, name)
@@ -998,6 +1055,11 @@ class Interp:
                 return Builtin(name)
             return Builtin(f"{o.name}.{name}")
         if isinstance(o, UserCM):
+            if self.side == "ref":
+                # the synchronous reference sees every manager through __enter__/__exit__
+                if name in ("__enter__", "__exit__"):
+                    return CMMethod(o, name)
+                raise PyRaise(ExcVal("AttributeError", ident=("attr", name)))
             if name in ("__aenter__", "__aexit__") and o.kind == "async":
                 return CMMethod(o, name)
             if name in ("__enter__", "__exit__") and o.kind == "sync":
@@ -1265,6 +1327,8 @@ class Frame:
                 o.context = v
             elif nm == "__cause__":
                 o.cause = v
+            elif nm == "__traceback__":
+                pass        # tracebacks are not part of any property
             else:
                 raise Unsupported(f"store exc attr {nm}")
         elif isinstance(o, ClassVal):
